@@ -21,6 +21,17 @@ func (p *Prog) SiteCallees(call ssa.CallInstruction) []*ssa.Function {
 			out = append(out, e.Callee.Func)
 		}
 	}
+	if len(out) == 0 && call.Common().IsInvoke() {
+		// VTA sees no concrete type flowing to this interface value (it comes from code outside the
+		// program, e.g. a user callback): fall back to every implementation (class hierarchy).
+		if cn := p.CHA().Nodes[call.Parent()]; cn != nil {
+			for _, e := range cn.Out {
+				if e.Site == call {
+					out = append(out, e.Callee.Func)
+				}
+			}
+		}
+	}
 	return out
 }
 
